@@ -313,7 +313,7 @@ pub static OPS_FLOAT: &[Op] = &[
     // ---------------------------------------------------------------- C11: text form of a duration (bounded stand-in: text is
     // outside both verifiers).  Display prints exactly the non-zero components of the decomposition with their unit names and a
     // single leading minus sign ("0 ns" for zero); parsing that text, and the serde round trip, return the identical duration.
-    Op { name: "duration_text", sig: &[Ty::Dur], pre: |a| a[0].total() >= -NPC, f: |a| {
+    Op { name: "duration_text", sig: &[Ty::Dur], pre: |_| true, f: |a| {
         use core::str::FromStr;
         let t = clamp(a[0].total());
         let d = Duration::from_total_nanoseconds(t);
@@ -365,7 +365,7 @@ pub static OPS_FLOAT: &[Op] = &[
     // ---------------------------------------------------------------- C09: default text form of an epoch (bounded stand-in):
     // YYYY-MM-DDTHH:MM:SS, nine fractional digits only when non-zero, then the scale name -- the fields of the epoch in its own
     // scale; {:x} the same in TAI, {:X} in TT, {:?} in UTC
-    Op { name: "epoch_display", sig: &[Ty::Dur, Ty::UTs], pre: |a| views_pre(a) && (a[0].total() + greg_zero(a[1].ts())).abs() < 3_000_000 * DAY_NS, f: |a| {
+    Op { name: "epoch_display", sig: &[Ty::Dur, Ty::Ts], pre: |a| a[0].total().abs() < 30_000 * NPC && (a[0].total() + greg_zero(a[1].ts())).abs() < 3_000_000 * DAY_NS, f: |a| {
         let ts = a[1].ts();
         let e = Epoch::from_duration(a[0].dur(), ts);
         let name = |s: TimeScale| match s { TimeScale::TAI => "TAI", TimeScale::TT => "TT", TimeScale::ET => "ET", TimeScale::TDB => "TDB", TimeScale::UTC => "UTC",
@@ -377,6 +377,11 @@ pub static OPS_FLOAT: &[Op] = &[
             if ns == 0 { format!("{:04}-{:02}-{:02}T{:02}:{:02}:{:02} {}", y, mo, d, h, mi, sec, name(s)) }
             else { format!("{:04}-{:02}-{:02}T{:02}:{:02}:{:02}.{:09} {}", y, mo, d, h, mi, sec, ns, name(s)) }
         };
+        // ET, TDB, UTC: only the forms in the epoch's own scale (no conversion involved: the calendar is integer arithmetic)
+        if scale_zero(ts).is_none() || !views_pre(a) {
+            let own = text_of(a[0].total() + greg_zero(ts), ts);
+            return (format!("{} | {}", e, e.to_gregorian_str(ts)), format!("{} | {}", own, own));
+        }
         let tai = a[0].total() + scale_zero(ts).unwrap();
         let mut got = vec![format!("{}", e), format!("{:x}", e), format!("{:X}", e), e.to_gregorian_str(ts)];
         let mut want = vec![text_of(a[0].total() + greg_zero(ts), ts), text_of(tai, TimeScale::TAI), text_of(tai - scale_zero(TimeScale::TT).unwrap(), TimeScale::TT),
